@@ -57,7 +57,15 @@ func hexBytes(b []byte) string {
 
 func hexStr(s string) string { return hexBytes([]byte(s)) }
 
-func hexFloat(f float64) string { return fmt.Sprintf("%016x", math.Float64bits(f)) }
+// hexFloat: floats cross the protocol as IEEE bits; NaN payloads are not compared.
+func hexFloat(f float64) string {
+	if math.IsNaN(f) {
+		return "nan"
+	}
+	return fmt.Sprintf("%016x", math.Float64bits(f))
+}
+
+func rawBits64(f float64) string { return fmt.Sprintf("%016x", math.Float64bits(f)) }
 
 func joinTok(xs ...string) string { return strings.Join(xs, " ") }
 
